@@ -114,6 +114,14 @@ CONFIGS = [
     {"cls": "CGNE", "kw": {"tol": 1e-8, "max_iter": 12}, "pool": "tall"},
     {"cls": "CGNE", "kw": {"tol": 1e-8, "max_iter": 8, "preconditioner_rank": 2}, "pool": "tall"},
     {"cls": "DEEP", "kw": {"max_iter": 2, "tol": 1e-6}, "pool": "deep"},
+    # non-default options: private seeds, verbose paths, the alternative micro-solver, random initialisation
+    {"cls": "RSP", "kw": {"block_size": 2, "max_iter": 8, "tol": 1e-6, "seed": 7, "test_sketch_size": 2}, "pool": "any"},
+    {"cls": "HYBRID", "kw": {"r": 2, "p": 1, "T": 1, "max_iter": 5, "tol": 1e-8, "seed": 11, "column_solver": "spd"}, "pool": "tall"},
+    {"cls": "CGNE", "kw": {"tol": 1e-8, "max_iter": 8, "preconditioner_rank": 1, "seed": 5}, "pool": "tall"},
+    {"cls": "DEEP", "kw": {"max_iter": 2, "tol": 1e-6, "random_init": True, "inner_iterations": 2, "compute_residuals": False},
+     "pool": "deep"},
+    {"cls": "NS", "kw": {"gamma": 0.9, "max_iter": 5, "tol": 1e-6, "verbose": True}, "pool": "any"},
+    {"cls": "QGMRES", "kw": {"tol": 1e-6, "verbose": True}, "pool": "sys"},
 ]
 
 POOLS = {
@@ -845,6 +853,6 @@ PROPERTY = Property(
         "import differential: two fresh interpreters (python -I), package style with only <repo> on sys.path vs flat style "
         "with <repo>/quatica on sys.path",
     ],
-    exhaustive_note=("histories_exhaustive: 13 solver configurations x every sequence of 1 and 2 calls from a pool of 4 "
+    exhaustive_note=("histories_exhaustive: 19 solver configurations x every sequence of 1 and 2 calls from a pool of 4 "
                      "problems (quick: plus a 1/7 sample of the 64 length-3 sequences; thorough: all 84 sequences)"),
 )
